@@ -71,6 +71,12 @@ def gen_plan(seed, tier="quick"):
     if form == "cbin":
         # a complete cbin/ch pair holding `frames` frames; metadata announces `claimed`
         claimed = max(1, frames + r.choice([-1, 1]) * r.choice([1, 2, 10, max(1, frames // 2)]))
+        if nap <= 2 and r.random() < 0.3:
+            frames = r.choice([100001, 250000])          # long enough for a rate mismatch to move the rounded count
+            claimed = max(1, frames + r.choice([-1, 1]) * r.choice([1, 2, 10]))
+            plan["frames"] = frames
+        # the .ch may carry the nominal rate (mtscomp CLI) while the .meta carries the measured one
+        plan["ch_rate"] = r.choice(["meta", "meta", "nominal"])
         plan.update({"frames": frames, "claimed": claimed, "meta": r.choice(["complete", "complete", "complete", "none"]),
                      "bytes": frames * frame, "chunk": r.choice([0.001, 0.005, 0.01, 1.0]), "bursts": [],
                      "two_phase": False})
@@ -108,7 +114,8 @@ def gen_plan(seed, tier="quick"):
     if r.random() < 0.3:
         reopen = r.choice([0, 0, 1, frame - 1, frame, frame + 1, 7 * frame + 2])
     plan.update({"frames": frames, "bytes": total, "claimed": claimed, "meta": meta, "bursts": bursts,
-                 "two_phase": two_phase, "pre_open": pre_open, "reopen": reopen})
+                 "two_phase": two_phase, "pre_open": pre_open, "reopen": reopen,
+                 "reopen_same": r.random() < 0.4})      # close() + open() on the same object instead of a new Reader
     return plan
 
 
@@ -175,7 +182,7 @@ def _run(plan, root):
         binf.write_bytes(stream[: plan["bytes"]])
         import mtscomp
         mtscomp.compress(binf, out=binf.with_suffix(".cbin"), outmeta=binf.with_suffix(".ch"),
-                         sample_rate=fs, n_channels=nc, dtype=np.int16, chunk_duration=plan["chunk"],
+                         sample_rate=(30000.0 if plan.get("ch_rate") == "nominal" else fs), n_channels=nc, dtype=np.int16, chunk_duration=plan["chunk"],
                          n_threads=1, check_after_compress=False, quiet=True)
         binf.unlink()
         target = binf.with_suffix(".cbin")
@@ -272,9 +279,14 @@ def _run(plan, root):
                             f"constructing {plan['reader']} raised {type(err).__name__}: {err} | bytes={B0}->{B1} frame={frame} claimed={plan['claimed']} | {tb.splitlines()[-3:]}")
         _oracle(plan, sr, stream, frame, nc, fs, B0, B1, log, probe, sigbase)
         if plan.get("reopen") is not None and plan["form"] == "bin":
+            if plan["reader"] == "OnlineReader" and plan["reopen"]:
+                _o5(plan, sr, stream, frame, nc, state, binf, sigbase, fault, log)
             sr.close()
+            same_obj = sr if plan.get("reopen_same") else None
             sr = None
-            nb = plan["reopen"]
+            nb = plan["reopen"] if plan["reader"] != "OnlineReader" else 0
+            if plan["reader"] == "OnlineReader":
+                nb = 0
             if nb:
                 with open(binf, "ab") as g:
                     g.write(stream[state["size"]: state["size"] + nb])
@@ -283,7 +295,12 @@ def _run(plan, root):
             B2 = state["size"]
             probe("second_opening_same_path_same_process")
             try:
-                sr = cls(target, ignore_warnings=plan["ignore_warnings"], sort=plan["sort"])
+                if same_obj is not None:
+                    probe("close_then_open_on_the_same_object")
+                    same_obj.open()
+                    sr = same_obj
+                else:
+                    sr = cls(target, ignore_warnings=plan["ignore_warnings"], sort=plan["sort"])
             except Exception as e:
                 raise Violation("C11.O1", f"{sigbase}:second-open:{type(e).__name__}",
                                 f"second opening of the same path in the same process raised {type(e).__name__}: {e} | bytes={B2} frame={frame} claimed={plan['claimed']}")
@@ -309,6 +326,39 @@ def _run(plan, root):
             f"{plan['reader']}{'2' if two_phase else ''}|{plan['form']}|{plan['meta']}|{np.sign(plan['bytes'] - plan['claimed'] * frame)}|t{trailing}|f{frame}|g{gclass}|w{int(plan['ignore_warnings'])}")
     stats["outcomes"]["violation" if viol else "held"] = 1
     return {"violation": viol, "stats": stats, "digest": digest(log), "sample": {"plan": plan, "log": log[:6]}}
+
+
+def _o5(plan, sr, stream, frame, nc, state, binf, sigbase, fault, log):
+    """O5: reads through an already-open OnlineReader after the file grew further must not raise
+    and must return the file's bytes at the positions asked for."""
+    M0 = int(sr._raw.shape[0])
+    nb = plan["reopen"]
+    with open(binf, "ab") as g:
+        g.write(stream[state["size"]: state["size"] + nb])
+    state["size"] += nb
+    fault("growth_after_online_reader_opened")
+    hi = state["size"] // frame
+    raw = np.frombuffer(stream[: hi * frame], dtype=np.int16).reshape(hi, nc)
+    order = np.asarray(sr.raw_channel_order)
+    s2v = np.asarray(sr.channel_conversion_sample2v["ap"])
+    try:
+        n_live = sr.ns
+        shp = sr.shape
+        full = sr[:, :]
+        head = sr[0:M0]
+    except Exception as e:
+        raise Violation("C11.O5", f"{sigbase}:after-growth-raises:{type(e).__name__}", f"read through the open OnlineReader after growth raised {type(e).__name__}: {e}")
+    log.append(["o5", M0, int(n_live), int(full.shape[0])])
+    if n_live != hi or shp[0] != hi:
+        raise Violation("C11.O5", f"{sigbase}:after-growth-ns", f"OnlineReader.ns={n_live} after growth, file holds {hi} complete frames")
+    fs_ = world.meta_fs(plan["fixture"])
+    rl_ = sr.rl
+    if abs(rl_ - n_live / fs_) > 1e-9 * max(1.0, n_live / fs_):
+        raise Violation("C11.O4", f"{sigbase}:after-growth-rl", f"duration rl={rl_} does not match the exposed sample count {n_live} (/fs = {n_live / fs_}) after growth")
+    for a in (full, head):
+        k = a.shape[0]
+        if k > hi or not np.array_equal(a, (raw[:k].astype(np.float32)[..., order] * s2v[order]).astype(np.float32)):
+            raise Violation("C11.O5", f"{sigbase}:after-growth-values", f"read after growth returned {k} rows that are not the file's first {k} frames (file holds {hi})")
 
 
 def _oracle(plan, sr, stream, frame, nc, fs, B0, B1, log, probe, sigbase):
